@@ -141,13 +141,37 @@ def run(ctx):
                         src = strip_refs(x[2][0])
                         if src[0] == "call" and src[3] == s.bi:
                             sel = x
-            ctx.check(sel is not None, "K3.default-on-none", "var returns lookup.unwrap_or(default): the default only when the lookup is None (%s)" % cfg,
-                      "var's result is not lookup_result.unwrap_or[_else](default): %s" % show_expr(r)[:160], where=vb.where(), fn=vb.key, nontrivial=True)
+            match_form = None
+            if sel is None:
+                from .core import option_guards
+                for (sw, t_some, t_none) in option_guards(vb, lambda x: x[0] == "call" and x[3] == s.bi):
+                    reg_some = vb.reachable(t_some) - vb.reachable(t_none)
+                    reg_none = vb.reachable(t_none) - vb.reachable(t_some)
+                    with vb.restricted(reg_some | {t_some} | (vb.reachable(t_some) & vb.reachable(t_none))):
+                        pass
+                    # value chosen on each edge: the definitions of the joined local inside the exclusive regions
+                    def chosen(region):
+                        vals = []
+                        for bi in sorted(region):
+                            for si, st in enumerate(vb.blocks[bi]["stmts"]):
+                                if st["k"] == "Assign" and not st["place"]["proj"] and vb.local_ty(st["place"]["local"]) == "serde_json::Value":
+                                    with vb.restricted(region):
+                                        vals.append(strip_refs(vb._trace_def(("stmt", bi, si, st["rv"], False), 0, frozenset())))
+                            t = vb.blocks[bi]["term"]
+                            if t["k"] == "Call" and not t["dest"]["proj"] and vb.local_ty(t["dest"]["local"]) == "serde_json::Value":
+                                vals.append(strip_refs(vb._trace_def(("call", bi, t, False), 0, frozenset())))
+                        return vals
+                    sv, nv = chosen(reg_some | {t_some}), chosen(reg_none | {t_none})
+                    found_ok = any(x[0] == "field" and x[1][0] == "downcast" and x[1][2] == "Some" for x in sv)
+                    if found_ok:
+                        match_form = nv
+            ctx.check(sel is not None or match_form is not None, "K3.default-on-none", "var returns the found value, the default only when the lookup is None (%s)" % cfg,
+                      "var's result is neither lookup.unwrap_or[_else](default) nor a match returning the Some payload: %s" % show_expr(r)[:160], where=vb.where(), fn=vb.key, nontrivial=True)
             # never inspects the found value
             insp = []
             for b in vu.bodies:
                 for bi, si, st in b.stmts():
-                    if st["k"] == "Assign" and st["rv"]["k"] == "Discriminant":
+                    if st["k"] == "Assign" and st["rv"]["k"] == "Discriminant" and st["rv"].get("adt") == VALUE:
                         e = strip_refs(b.xtrace({"k": "Copy", "place": st["rv"]["place"]})) if False else strip_refs(b._trace_place(st["rv"]["place"], 0, frozenset()))
                         if expr_mentions(e, lambda x: x[0] == "call" and x[1] and x[1].get("key") == lookup.key):
                             insp.append((b, bi, si))
@@ -184,6 +208,23 @@ def run(ctx):
                         else:
                             kinds.add("other:" + show_expr(c)[:40])
                     dv = kinds
+            if sel is None and match_form is not None:
+                kinds = set()
+                for c in match_form:
+                    if c[0] == "const" and "item" in c[1] and items.get(c[1]["item"], {}).get("ty") == VALUE:
+                        kinds.add("null-const")
+                    elif c[0] == "agg" and c[1].get("adt") == VALUE and c[1].get("variant") == "Null":
+                        kinds.add("null-const")
+                    elif c[0] == "call" and c[1] and c[1]["path"] == CLONE:
+                        o = strip_refs(c[2][0])
+                        if o[0] == "call" and o[1]["path"].endswith("Index<I>>::index") and const_value(strip_refs(o[2][1])[1]) == 1:
+                            kinds.add("operand1")
+                        else:
+                            kinds.add("other:" + show_expr(o)[:40])
+                    else:
+                        kinds.add("other:" + show_expr(c)[:40])
+                ctx.check(kinds == {"null-const", "operand1"}, "K3.default-value", "the default is null or a clone of operand 1 (%s)" % cfg, "default alternatives: %s" % sorted(kinds), where=vb.where(), fn=vb.key, nontrivial=True)
+            if sel is not None:
                 ctx.check(dv == {"null-const", "operand1"}, "K3.default-value", "the default is null or a clone of operand 1 (%s)" % cfg, "default alternatives: %s" % (sorted(dv) if dv else show_expr(d)[:80]), where=vb.where(), fn=vb.key, nontrivial=True)
         # whole-data forms
         whole = []
